@@ -94,9 +94,34 @@ class Check:
 
     # ------------------------------------------------------------------ lean
     def _lock(self):
-        f = open(LEAN / ".verif.lock", "w")
-        fcntl.flock(f, fcntl.LOCK_EX)
-        return f
+        """reentrant exclusive lock on the Lean project (generated sources + build output are shared by
+        all checks; a check holds it from regeneration until its last driver run: `with ck.locked():`)"""
+        ck = self
+
+        class _L:
+            def close(self_inner):
+                ck._lock_depth -= 1
+                if ck._lock_depth == 0:
+                    ck._lock_file.close()
+                    ck._lock_file = None
+        if getattr(self, "_lock_depth", 0) == 0:
+            self._lock_file = open(LEAN / ".verif.lock", "w")
+            fcntl.flock(self._lock_file, fcntl.LOCK_EX)
+            self._lock_depth = 0
+        self._lock_depth += 1
+        return _L()
+
+    def locked(self):
+        import contextlib
+
+        @contextlib.contextmanager
+        def cm():
+            l = self._lock()
+            try:
+                yield
+            finally:
+                l.close()
+        return cm()
 
     def regenerate(self, generators: Iterable[str]) -> bool:
         """run the named generators (tools/py2lean/gen_<name>.py); write-if-changed; returns False if
